@@ -468,6 +468,23 @@ def apply_edits(optic, edits):
 
 
 # ---------------- corner-case corpus (runs first in every check that traces lenses) ----------------
+def rear_stop_spec(rng):
+    """finite object + positive singlet + stop behind the rear focus: EPL < 0 (entrance pupil in front of surface 1).
+    rng None = the fixed corpus member, otherwise a random member of the family"""
+    inf = float('inf')
+    u = (lambda a, b: (a + b) / 2) if rng is None else rng.uniform
+    R = u(30.0, 70.0)
+    n = u(1.5, 1.8)
+    f = R / (2 * (n - 1))                       # thin-lens estimate
+    return {'name': 'rear-stop-finite-object', 'aperture': ['EPD', u(2.0, 6.0)], 'field_type': 'object_height',
+            'fields': [[0.0, 0.0, 0.0, 0.0], [u(1.0, 4.0), 0.0, 0.0, 0.0]], 'wavelengths': [[0.5876, True]],
+            'telecentric': False, 'object_thickness': u(1.6, 4.0) * f,
+            'surfaces': [
+                {'type': 'standard', 'radius': R, 'thickness': u(2.0, 5.0), 'material': ['ideal', n, 0.0]},
+                {'type': 'standard', 'radius': -R, 'thickness': u(1.4, 3.0) * f, 'material': 'air'},
+                {'type': 'standard', 'radius': inf, 'thickness': u(5.0, 30.0), 'material': 'air', 'is_stop': True}]}
+
+
 def corpus():
     inf = float('inf')
     base = {'aperture': ['EPD', 10.0], 'field_type': 'angle', 'fields': [[0.0, 0.0, 0.0, 0.0], [5.0, 0.0, 0.0, 0.0]],
@@ -527,6 +544,9 @@ def corpus():
     out.append(dict(base, name='centre-of-curvature', object_thickness=100.0, field_type='object_height',
                     fields=[[0.0, 0.0, 0.0, 0.0], [2.0, 0.0, 0.0, 0.0]], surfaces=[
         {'type': 'standard', 'radius': -100.0, 'thickness': -100.0, 'material': 'mirror', 'is_stop': True}]))
+    # finite object, stop far behind a positive lens (beyond its focus): the entrance pupil is a real image of the stop
+    # IN FRONT of the first surface (EPL < 0) - signed pupil position vs distance
+    out.append(rear_stop_spec(None))
     # one frame component at a time: tilt about y only, tilt about x only, decentre only
     out.append(dict(base, name='single-tilts', surfaces=[
         {'type': 'standard', 'radius': 60.0, 'thickness': 5.0, 'material': ['ideal', 1.6, 0.0], 'is_stop': True, 'ry': 0.06},
